@@ -6,6 +6,8 @@ import (
 	"time"
 
 	"github.com/pip-services3-gox/pip-services3-expressions-gox/calculator"
+	"github.com/pip-services3-gox/pip-services3-expressions-gox/calculator/functions"
+	"github.com/pip-services3-gox/pip-services3-expressions-gox/variants"
 	"github.com/pip-services3-gox/pip-services3-expressions-gox/calculator/parsers"
 	"github.com/pip-services3-gox/pip-services3-expressions-gox/calculator/variables"
 	"github.com/pip-services3-gox/pip-services3-expressions-gox/mustache"
@@ -74,12 +76,15 @@ func runTemplateHistory(c *Ctx, srcs []string) {
 	c.record(op, len(srcs) >= 2)
 	c.count("template-history")
 	var note string
-	vars := map[string]string{"a": "1", "B": "", "name": "x/y"}
+	// the variable maps differ from step to step: exact keys, keys in another letter case, two keys that differ in case only
+	varSets := []map[string]string{{"a": "1", "B": "", "name": "x/y"}, {"A": "2", "b": "q", "Name": "Bob"}, {"A": "2", "a": "3", "Name": "Bob", "NAME": "Alice", "b": ""},
+		{"NAME": "Z", "nAME": "Y", "B": "1"}}
 	st := safeCallT(5*time.Second, func() string {
 		t := mustache.NewMustacheTemplate()
 		t.SetAutoVariables(false)
 		p := mparsers.NewMustacheParser()
 		for i, s := range srcs {
+			vars := varSets[(i+len(srcs))%len(varSets)]
 			snap := func(tt *mustache.MustacheTemplate, pp *mparsers.MustacheParser) string {
 				if err := pp.ParseString(s); err != nil {
 					return "err " + errCode(err)
@@ -109,8 +114,71 @@ func runTemplateHistory(c *Ctx, srcs []string) {
 	}
 }
 
+// two calculators alive at the same time, each with its own edits of its default function table: what one of them
+// computes equals what a calculator computes that is alone in the process with the same edits
+func runTwoCalculators(c *Ctx, scenario int) {
+	op := fmt.Sprintf("twocalc %d", scenario)
+	c.record(op, true)
+	c.count("two-live-calculators")
+	mkFn := func(name string, k int) functions.IFunction {
+		return functions.NewDelegatedFunction(name, func(p []*variants.Variant, o variants.IVariantOperations) (*variants.Variant, error) {
+			if len(p) != 1 {
+				return nil, fmt.Errorf("one parameter expected")
+			}
+			return o.Mul(p[0], variants.VariantFromInteger(k))
+		})
+	}
+	exprs := []string{"Twice(21) + Max(1, 2)", "Min(4, 3) + Twice(1)", "Twice(2) * Twice(3)", "Sum(1, 2, 3) - Min(1, 2)"}
+	var note string
+	st := safeCallT(5*time.Second, func() string {
+		c1 := calculator.NewExpressionCalculator()
+		var others []*calculator.ExpressionCalculator
+		alone := calculator.NewExpressionCalculator()
+		c1.DefaultFunctions().Add(mkFn("Twice", 2))
+		alone.DefaultFunctions().Add(mkFn("Twice", 2))
+		for i := 0; i <= scenario%3; i++ {
+			o := calculator.NewExpressionCalculator()
+			switch (scenario + i) % 4 {
+			case 0:
+				o.DefaultFunctions().Add(mkFn("Thrice", 3))
+			case 1:
+				o.DefaultFunctions().RemoveByName("Min")
+			case 2:
+				o.DefaultFunctions().Add(mkFn("Twice", 5))
+			default:
+				o.DefaultFunctions().Remove(0)
+				o.DefaultFunctions().Add(mkFn("Max", 7))
+			}
+			others = append(others, o)
+		}
+		for _, e := range exprs {
+			ev := func(cc *calculator.ExpressionCalculator) string {
+				if err := cc.SetExpression(e); err != nil {
+					return "err " + errCode(err)
+				}
+				return outcome(cc.Evaluate())
+			}
+			for _, o := range others {
+				ev(o)
+			}
+			if g, w := ev(c1), ev(alone); g != w && note == "" {
+				note = fmt.Sprintf("%q: a calculator with the user function Twice gives %s while %d other calculator(s) with their own edited function tables are alive; a calculator with the same function table gives %s", e, g, len(others), w)
+			}
+		}
+		return ""
+	})
+	if st != "" {
+		c.fail(Failure{Kind: "oracle", Op: op, Impl: st, Note: "did not return normally"})
+	} else if note != "" {
+		c.fail(Failure{Kind: "oracle", Op: op, Impl: "differs", Note: note})
+	}
+}
+
 func init() {
 	calcHistories = func(c *Ctx) {
+		for sc := 0; sc < 12; sc++ {
+			runTwoCalculators(c, sc)
+		}
 		exprPool := []string{"a << 1", "a <= 1", "a <> 1", "a >> 1", "a >= b", "a != b", "a + b * 2", "(a", "a +", "1 2", "'unterminated", "/* open", "x", "Max(a, b)", "a[0]", "NOT a", "", "a IS NULL", "\"a\" + 1", "a NOT IN b"}
 		tplPool := []string{"{{a}}", "{{{name}}}", "x{{#a}}y{{/a}}z", "{{#if B}}q{{/if}}", "{{^B}}w{{/B}}", "{{a", "{{#a}}x", "text", "", "{{! c }}ok", "{{ 'unterminated", "}}{{a}}", "{{ 😀 }}", "{{a}} {{B}}"}
 		for _, a := range exprPool {
@@ -130,6 +198,9 @@ func init() {
 				runParserHistory(c, []string{v, e})
 				runParserHistory(c, []string{e, "(", v})
 			}
+		}
+		for _, hist := range [][]string{{"{{name}}", "{{name}}"}, {"{{name}}", "{{name}}", "{{name}}"}, {"{{nAmE}} {{a}}", "{{name}}", "{{nAmE}} {{a}}", "{{NAME}}"}, {"{{#name}}{{a}}{{/name}}", "{{name}}{{A}}", "{{#name}}{{a}}{{/name}}"}} {
+			runTemplateHistory(c, hist)
 		}
 		for _, s := range []string{"Hello {{name}}!", "{{#A}}x{{/A}} Y", "{{{Name}}} and {{B}}", "text only"} {
 			for _, v := range []string{swapCase(s), strings.ToUpper(s), strings.ToLower(s), s + " ", s, s + "."} {
@@ -174,6 +245,10 @@ func init() {
 			runParserHistory(c, xs)
 		case "thist":
 			runTemplateHistory(c, xs)
+		case "twocalc":
+			var sc int
+			fmt.Sscanf(f[1], "%d", &sc)
+			runTwoCalculators(c, sc)
 		}
 	}
 }
